@@ -117,7 +117,7 @@ func c08NewHub(seats []group.MemberIndex, pubKeys map[group.MemberIndex][]byte, 
 		factories: map[string]func() net.TaggedUnmarshaler{}, typeOrder: map[string]int{},
 		handlers: map[group.MemberIndex][]*c08Handler{}, held: map[group.MemberIndex][]c08Held{},
 		backlog: map[group.MemberIndex][]*c08Msg{},
-		stats: map[string]int{}, lastSend: time.Now(),
+		stats:   map[string]int{}, lastSend: time.Now(),
 	}
 }
 
@@ -425,11 +425,9 @@ func c08Operators() ([]c08Operator, chain.Signing, error) {
 	c08OperatorsOnce.Do(func() {
 		c08ChainSigning = local_v1.Connect(5, 3).Signing()
 		for i := 0; i < 8; i++ {
-			_, pk, err := operator.GenerateKeyPair(local_v1.DefaultCurve)
-			if err != nil {
-				c08OperatorsErr = err
-				return
-			}
+			// fixed keys: the public key of the private scalar 0xC08000+i
+			x, y := local_v1.DefaultCurve.ScalarBaseMult(big.NewInt(int64(0xC08000 + i)).Bytes())
+			pk := &operator.PublicKey{Curve: operator.Secp256k1, X: x, Y: y}
 			addr, err := c08ChainSigning.PublicKeyToAddress(pk)
 			if err != nil {
 				c08OperatorsErr = err
@@ -513,7 +511,7 @@ func c08CheckFinalGroup(t c08Fataler, w *c08Wallet) {
 			t.Fatalf("finalSigningGroup maps key generation member %d to final index %d, expected %d; %s", d, finalIdx[d], i+1, w.describe())
 		}
 		if finalOps[i] != selected[d-1] {
-			t.Fatalf("finalSigningGroup puts operator %v at final index %d, expected the operator of key generation member %d (%v); %s", finalOps[i], i+1, d, selected[d-1], w.describe())
+			t.Fatalf("finalSigningGroup puts another operator at final index %d than the operator of key generation member %d; %s", i+1, d, w.describe())
 		}
 	}
 }
@@ -575,7 +573,7 @@ func c08Register(t c08Fataler, w *c08Wallet, reload bool) map[group.MemberIndex]
 			t.Fatalf("key generation member %d was stored with final member index %d, expected %d; %s", d, f, modelFinal[d], w.describe())
 		}
 		if fmt.Sprint(sg.wallet.signingGroupOperators) != fmt.Sprint(modelOperators) {
-			t.Fatalf("key generation member %d was stored with final group operators %v, expected %v; %s", d, sg.wallet.signingGroupOperators, modelOperators, w.describe())
+			t.Fatalf("key generation member %d was stored with a final group operator list which is not the operators of the remaining members in order; %s", d, w.describe())
 		}
 		if sg.wallet.publicKey.X.Cmp(w.publicKey.X) != 0 || sg.wallet.publicKey.Y.Cmp(w.publicKey.Y) != 0 {
 			t.Fatalf("key generation member %d was stored with a different wallet public key; %s", d, w.describe())
